@@ -37,9 +37,9 @@ def run_demo():
         os.remove(dst)
         return rc, out
     else:
-        rc, out = sh("go build -o /tmp/goawk_demo . ")
+        rc, out = sh("go build -o /tmp/goawk_demo_" + sid + " . ")
         if rc != 0: return 99, out
-        return sh(f"sh {md}/demo.sh /tmp/goawk_demo 2>&1")
+        return sh(f"sh {md}/demo.sh /tmp/goawk_demo_{sid} 2>&1")
 clean()
 rc, out = sh(f"git apply --check {md}/patch.diff")
 if rc != 0: print("FAIL: patch does not apply", out); sys.exit(1)
